@@ -712,6 +712,9 @@ def stepEval (tupNameH hasEC condNameH paramsS ekind exprS tupS reqS extraS impl
     | _, _, _, _, _, _ => "SKIP unparsable-eval-case"
 
 def step (c impl : String) : String :=
+  if impl == "TIMEOUT" && !(c.startsWith "slow") then
+    specViol "the case did not finish within 8 s (a converter or the evaluation hangs; cf. F14: error messages built with big.Float.String())"
+  else
   match fields c with
   | [kind, tr, v] =>
     if kind != "conv" && kind != "convraw" && kind != "cast" && kind != "slow" then "SKIP unknown-case" else
